@@ -120,6 +120,8 @@ type fact struct {
 	// join: an if/switch all of whose branches fall through binds the variables they assign as one tuple
 	// (`let (a, b) := if c then … (a, b) else … (a, b)`) instead of duplicating the code that follows into each branch
 	join bool
+	// anyReturn: the Go function returns a non-scalar value (a mantissa); `return v` is outcome 0
+	anyReturn bool
 	// errResult: the Go method returns `error`; `return nil` is outcome 0, `return <call>` outcome 3
 	errResult bool
 	// rangeConds: the range loops of the function, in order: each must have the shape `for … { if c { return … } }`
@@ -1215,6 +1217,11 @@ func (t *ftr) stmts(list []ast.Stmt, c fctx, k func(c fctx) string) string {
 					}
 				}
 			}
+			if t.f.anyReturn && len(x.Results) == 1 {
+				if _, scalar := t.typeOf(unparen(x.Results[0])); !scalar {
+					return t.ret(nil, 0, c) // the value returned is a mantissa: see mtrace
+				}
+			}
 			if t.f.errResult && len(x.Results) == 2 {
 				// `return v, nil` = outcome 0 (the value is mantissa/buffer traffic); `return nil, err` = outcome 3
 				if id, ok := unparen(x.Results[1]).(*ast.Ident); ok && id.Name == "nil" {
@@ -1881,6 +1888,7 @@ func baseFacts() []*fact {
 				{src: "x.fmtE", code: 4, capAll: true},
 				{src: "x.fmtF", code: 5, capAll: true},
 				{src: "append(buf, '%', fmt)", code: 6, capAll: true}}},
+		{lean: "MinPrec", fn: "Decimal.MinPrec", params: ps("form", "x.form", "lenMant", "len(x.mant)", "tz", "x.mant.trailingZeroDigits()")},
 		{lean: "GobEncode", fn: "Decimal.GobEncode", stateful: true, errResult: true, join: true,
 			doc:    "mtrace: 1 = the buffer size, 2 = the version byte, 3 = the attribute byte, 4 = the precision field, 5 = the exponent field, 6 = index of the first mantissa word encoded",
 			params: ps("xNil", "x == nil", "form", "x.form", "prec", "x.prec", "lenMant", "len(x.mant)", "mode", "x.mode", "acc", "x.acc", "neg", "x.neg", "exp", "x.exp"),
